@@ -174,13 +174,13 @@ Section ExtStrict.
 
   Theorem exec_file_extends fuel sts ms : ext_ok (exec_file t fl cfg glob regexes find call fuel sts ms).
   Proof.
-    apply (Phi_exec_file t fl cfg glob regexes find call (@ext_ok)).
+    apply (Phi_exec_file t fl cfg glob regexes find call (@ext_ok)) with (good_ctx := fun _ => True); [..|exact (fun _ => I)].
     - exact ext_ret.
     - exact ext_bind.
     - intros A e _. apply ext_noresult. intros s p a s' p'. discriminate.
     - intros A x. apply ext_noresult. intros s p a s' p'. discriminate.
     - intros A. apply ext_noresult. intros s p a s' p'. discriminate.
-    - exact ext_ctx.
+    - intros A c m _. apply ext_ctx.
     - apply ext_same_graph. intros s p a s' p' H. apply get_ok in H as (_ & -> & _). reflexivity.
     - intros l. unfold set_locals. same_modify.
     - intros l. unfold set_scoped. same_modify.
